@@ -512,6 +512,32 @@ func famAPIRelease(cloud bool, bounds map[string]int) []*Scenario {
 			},
 			Final: quiesce,
 		})
+		// (b2) the release arrives while the old incarnation's delete event is still to be handled: the record it looks at first
+		// (old uid) is not the record in force when it acts
+		out = append(out, &Scenario{Name: "apirelease-pod+pending-delete/" + c.String(), Class: c.String(), Cfg: cfgOnePool(2, cloud), Bounds: bounds, Weight: 3,
+			Build: func(w *world.World) []Thread {
+				c.setWorkload(w, 1)
+				p := c.pod(0)
+				w.CreatePod(p)
+				mustSchedule(w, p.Key())
+				w.DeletePod(p.Key())
+				old := takePending(w)
+				_, list := w.APIList("keyword=" + p.Name)
+				var entries []api.FloatingIP
+				for _, e := range list.Content {
+					entries = append(entries, e)
+				}
+				return []Thread{
+					{"apirelease", func() { w.APIRelease(entries) }},
+					{"deliver-old", deliverAll(w, old)},
+					{"recreate+sched", func() {
+						w.CreatePod(p)
+						scheduleRetry(w, p.Key(), 2)()
+					}},
+				}
+			},
+			Final: quiesce,
+		})
 		// (c) the same with a third party instead of the resync: the only other IP of the pool is taken, so a pod of another
 		// workload can only get an IP if the release really frees the identity's one
 		out = append(out, &Scenario{Name: "apirelease-pod+other/" + c.String(), Class: c.String(), Cfg: cfgOnePool(2, cloud), Bounds: bounds, Weight: 3,
